@@ -248,10 +248,19 @@ def check(ctx):
             val = value_of(p, comb)
             err = ('fn', 'sqrt', variance_of(p, comb))
             rel = div(err, ('fn', 'fabs', val))
+            prims = [t for t in T.subterms(ret) if isinstance(t, tuple) and len(t) == 3 and t[0] == 'fld' and t[1] == comb]
+
+            def declare_prims(env_):
+                # members of the combination that the decision reads directly (a helper that recomputes the
+                # relative error): any class; the call counters are positive integers (premise: calls >= 2)
+                for t in prims:
+                    if t not in env_.vals:
+                        env_.vals[t] = fp.POS if t[2] in ('calls_',) else fp.TOP
+                return env_
             # R2: target zero never stops, whatever the relative error is (NaN, 0, inf, ...)
             bad = []
             for crel in fp.ALL:
-                env = fp.Env({target: fp.ZERO, rel: crel})
+                env = declare_prims(fp.Env({target: fp.ZERO, rel: crel}))
                 env.vals[err] = fp.TOP
                 env.vals[val] = fp.TOP
                 b = fp.evb(fp.resolve(ret, env), env) if not isinstance(ret, tuple) or ret[0] != 'bool' \
@@ -274,7 +283,7 @@ def check(ctx):
             bad = []
             for cerr in (fp.ZERO, fp.POS, fp.PINF):
                 for cval in (fp.NINF, fp.NEG, fp.ZERO, fp.POS, fp.PINF):
-                    env = fp.Env({target: fp.POS, err: cerr, val: cval})
+                    env = declare_prims(fp.Env({target: fp.POS, err: cerr, val: cval}))
                     want = fp.evb(('>', rel, target), env)
                     relc = fp.ev(rel, env)
                     if relc.cls & fp.NAN:
@@ -289,7 +298,7 @@ def check(ctx):
             # relative error, assuming the comparison either way must fix the decision
             if T.occurs(ret, rel):
                 for truth in (True, False):
-                    env = fp.refine(('>', rel, target), fp.Env({target: fp.POS, rel: fp.FINITE | fp.PINF | fp.NINF}),
+                    env = fp.refine(('>', rel, target), declare_prims(fp.Env({target: fp.POS, rel: fp.FINITE | fp.PINF | fp.NINF})),
                                     truth)
                     env.vals[target] = fp.POS
                     b = fp.evb(ret, env)
